@@ -86,38 +86,93 @@ const usesReason = "imports are collected from types.Info.Uses in map order but 
 // detCond: sites that are deterministic only while a re-checked condition on the repository holds.
 var detCond = map[string]func(c *core.Ctx) (bool, string){
 	"genfp.writer.ImportList|collects into ret in map order without sorting it afterwards": func(c *core.Ctx) (bool, string) {
-		// the only caller must pass the list through go/format.Source (which sorts the import block)
-		callers, formatted := 0, 0
+		// every caller must pass the list through go/format.Source (which sorts the import block) — itself, through a
+		// helper it calls, or in every function that calls it (the text is assembled in one function and formatted by
+		// its caller): call graph over the generator packages, three levels up and down
+		type fnode struct {
+			fb      *fnBody
+			callees map[*types.Func]bool
+			formats bool
+			imports bool
+		}
+		nodes := map[*types.Func]*fnode{}
 		for _, fb := range funcBodies(c, generatorPkgs(c)) {
-			if fb.Lit != nil {
+			if fb.Lit != nil || fb.Decl == nil {
 				continue
 			}
 			info := fb.Pkg.TypesInfo
-			calls := nodeContains(fb.Body, true, func(x ast.Node) bool {
+			self, _ := info.Defs[fb.Decl.Name].(*types.Func)
+			if self == nil {
+				continue
+			}
+			n := &fnode{fb: fb, callees: map[*types.Func]bool{}}
+			ast.Inspect(fb.Body, func(x ast.Node) bool {
 				call, ok := x.(*ast.CallExpr)
 				if !ok {
-					return false
+					return true
 				}
 				callee := calleeOf(info, call)
-				return callee != nil && callee.Name() == "ImportList" && callee.Pkg() != nil && strings.HasSuffix(callee.Pkg().Path(), "/genfp")
+				if callee == nil || callee.Pkg() == nil {
+					return true
+				}
+				if callee.Pkg().Path() == "go/format" && callee.Name() == "Source" {
+					n.formats = true
+				}
+				if callee.Name() == "ImportList" && strings.HasSuffix(callee.Pkg().Path(), "/genfp") {
+					n.imports = true
+				}
+				n.callees[callee.Origin()] = true
+				return true
 			})
-			if !calls {
+			nodes[self.Origin()] = n
+		}
+		var formatsDown func(f *types.Func, depth int) bool
+		formatsDown = func(f *types.Func, depth int) bool {
+			n := nodes[f]
+			if n == nil || depth > 3 {
+				return false
+			}
+			if n.formats {
+				return true
+			}
+			for cal := range n.callees {
+				if cal != f && formatsDown(cal, depth+1) {
+					return true
+				}
+			}
+			return false
+		}
+		var normalised func(f *types.Func, depth int) bool
+		normalised = func(f *types.Func, depth int) bool {
+			if formatsDown(f, 0) {
+				return true
+			}
+			if depth > 3 {
+				return false
+			}
+			callers := 0
+			for g, n := range nodes {
+				if g != f && n.callees[f] {
+					callers++
+					if !normalised(g, depth+1) {
+						return false
+					}
+				}
+			}
+			return callers > 0
+		}
+		callers, formatted := 0, 0
+		for f, n := range nodes {
+			if !n.imports {
 				continue
 			}
 			callers++
-			if nodeContains(fb.Body, true, func(x ast.Node) bool {
-				call, ok := x.(*ast.CallExpr)
-				if !ok {
-					return false
-				}
-				callee := calleeOf(info, call)
-				return callee != nil && callee.Pkg() != nil && callee.Pkg().Path() == "go/format" && callee.Name() == "Source"
-			}) {
+			if normalised(f, 0) {
 				formatted++
 			}
 		}
 		if callers >= 1 && callers == formatted {
-			return true, "every caller of ImportList (" + itoa(callers) + ") passes the text through go/format.Source, which sorts the import block"
+			return true, "every caller of ImportList (" + itoa(callers) + ") passes the text through go/format.Source (itself, in a helper, or in all of its callers), which sorts the import block"
 		}
 		return false, "ImportList returns the imports in map order and a caller does not normalise them through go/format.Source"
 	},
